@@ -316,8 +316,11 @@ func (progBldr *ProgBuilder) CodePathOper(elem int) {
 		// not implemented
 	case '/':
 		pathOperPush = func(ctx *context) {
-			ctx.actualPathStack.PeakPath().SetIsRootBased(true)
-			//ctx.actualPathStack.PushElem("/")
+			// An absolute path starts at the root whatever has been
+			// collected so far: inside a predicate the top of the stack
+			// is a copy of the path up to the step the predicate follows.
+			_ = ctx.actualPathStack.PopPath()
+			ctx.actualPathStack.PushPath((&sdcpb.Path{}).SetIsRootBased(true))
 		}
 	default:
 		// unknown
